@@ -421,4 +421,94 @@ theorem splayErase_spec {lt : Int → Int → Bool} (sw : StrictWeak lt) (k : In
     · exact Or.inr (hp.right_gt (Or.inl hkx) c hc)
   · have := sw.asymm hkx; simp_all
 
+
+/-- `mn` is a least and `mx` a greatest key of `t` -/
+def Ext (lt : Int → Int → Bool) (t : Tree) (mn mx : Int) : Prop :=
+  mn ∈ inorder t ∧ mx ∈ inorder t ∧ ∀ a ∈ inorder t, lt a mn = false ∧ lt mx a = false
+
+/-- what `splay_check` computes: `none` exactly for trees that are not search trees, otherwise the
+extreme keys of the tree -/
+theorem splayCheck_spec {lt : Int → Int → Bool} (sw : StrictWeak lt) (t : Tree) :
+    match splayCheck lt t with
+    | none => ¬ Bst lt t
+    | some none => t = .nil
+    | some (some (mn, mx)) => Bst lt t ∧ Ext lt t mn mx := by
+  have letr : ∀ a b c, lt b a = false → lt c b = false → lt c a = false := fun a b c => sw.le_trans
+  have irr := sw.irrefl
+  induction t with
+  | nil => simp [splayCheck]
+  | node l x r ihl ihr =>
+    simp only [splayCheck]
+    cases hl : splayCheck lt l with
+    | none =>
+      simp only [hl] at ihl
+      simp only [Bst]
+      intro h; exact ihl h.1
+    | some bl =>
+      cases hr : splayCheck lt r with
+      | none =>
+        simp only [hr] at ihr
+        simp only [Bst]
+        intro h; exact ihr h.2.1
+      | some br =>
+        simp only [hl, hr] at ihl ihr
+        rcases bl with _ | ⟨mnl, mxl⟩ <;> rcases br with _ | ⟨mnr, mxr⟩
+        · simp only at ihl ihr; subst ihl; subst ihr
+          simp [Bst, Ext, inorder, irr]
+        · simp only at ihl ihr; subst ihl
+          obtain ⟨bR, m1, m2, m3⟩ := ihr
+          by_cases hc : lt mnr x = true
+          · simp only [hc, Bool.not_true, Bool.and_false, Bool.false_eq_true, if_false, Bst]
+            intro h; have := h.2.2.2 mnr m1; simp [hc] at this
+          · have hc' : lt mnr x = false := by simpa using hc
+            simp only [hc', Bool.not_false, Bool.and_self, if_true, Bst, Ext, inorder, List.nil_append,
+              List.mem_cons, List.not_mem_nil]
+            refine ⟨⟨trivial, bR, by simp, fun b hb => letr _ _ _ hc' (m3 b hb).1⟩, Or.inl trivial, Or.inr m2, ?_⟩
+            rintro a (rfl | ha)
+            · exact ⟨irr _, letr _ _ _ hc' (m3 mnr m1).2⟩
+            · exact ⟨letr _ _ _ hc' (m3 a ha).1, (m3 a ha).2⟩
+        · simp only at ihl ihr; subst ihr
+          obtain ⟨bL, m1, m2, m3⟩ := ihl
+          by_cases hc : lt x mxl = true
+          · simp only [hc, Bool.not_true, Bool.false_and, Bool.false_eq_true, if_false, Bst]
+            intro h; have := h.2.2.1 mxl m2; simp [hc] at this
+          · have hc' : lt x mxl = false := by simpa using hc
+            simp only [hc', Bool.not_false, Bool.and_self, if_true, Bst, Ext, inorder, List.mem_append,
+              List.mem_cons, List.not_mem_nil, or_false]
+            refine ⟨⟨bL, trivial, fun a ha => letr _ _ _ (m3 a ha).2 hc', by simp⟩, Or.inl m1, Or.inr trivial, ?_⟩
+            rintro a (ha | rfl)
+            · exact ⟨(m3 a ha).1, letr _ _ _ (m3 a ha).2 hc'⟩
+            · exact ⟨letr _ _ _ (m3 mnl m1).2 hc', irr _⟩
+        · obtain ⟨bL, l1, l2, l3⟩ := ihl
+          obtain ⟨bR, r1, r2, r3⟩ := ihr
+          by_cases hc1 : lt x mxl = true
+          · simp only [hc1, Bool.not_true, Bool.false_and, Bool.false_eq_true, if_false, Bst]
+            intro h; have := h.2.2.1 mxl l2; simp [hc1] at this
+          · have hc1' : lt x mxl = false := by simpa using hc1
+            by_cases hc2 : lt mnr x = true
+            · simp only [hc1', hc2, Bool.not_true, Bool.not_false, Bool.and_false, Bool.false_eq_true, if_false, Bst]
+              intro h; have := h.2.2.2 mnr r1; simp [hc2] at this
+            · have hc2' : lt mnr x = false := by simpa using hc2
+              have hlx : ∀ a ∈ inorder l, lt x a = false := fun a ha => letr _ _ _ (l3 a ha).2 hc1'
+              have hrx : ∀ b ∈ inorder r, lt b x = false := fun b hb => letr _ _ _ hc2' (r3 b hb).1
+              simp only [hc1', hc2', Bool.not_false, Bool.and_self, if_true, Bst, Ext, inorder, List.mem_append,
+                List.mem_cons]
+              refine ⟨⟨bL, bR, hlx, hrx⟩, Or.inl l1, Or.inr (Or.inr r2), ?_⟩
+              rintro a (ha | rfl | ha)
+              · exact ⟨(l3 a ha).1, letr _ _ _ (hlx a ha) (hrx mxr r2)⟩
+              · exact ⟨hlx mnl l1, hrx mxr r2⟩
+              · exact ⟨letr _ _ _ (hlx mnl l1) (hrx a ha), (r3 a ha).2⟩
+
+/-- **`check()` is true exactly for search trees** (non-strict order, so also for duplicates) -/
+theorem splayCheck_iff {lt : Int → Int → Bool} (sw : StrictWeak lt) (t : Tree) :
+    (splayCheck lt t).isSome = true ↔ Bst lt t := by
+  have := splayCheck_spec sw t
+  cases h : splayCheck lt t with
+  | none => simp only [h] at this; simp [this]
+  | some b =>
+    simp only [h] at this
+    rcases b with _ | ⟨mn, mx⟩
+    · simp only at this; subst this; simp [Bst]
+    · simp [this.1]
+
 end TlxVerif.C17
